@@ -30,6 +30,7 @@ class Pools:
         self.use = {}
         self.res = []      # real ReservedResources
         self.hold = []     # model holdings
+        self.watched = []  # (dict handed to reserve_resources, its content then, reservation index)
         self.c = {'ops': 0, 'raised': 0, 'reserve_ok': 0, 'reserve_refused': 0, 'multi_failed_after_success': 0,
                   'over_capacity_states': 0, 'merges': 0, 'partial_releases': 0, 'invalid_rejected': 0}
 
@@ -65,7 +66,8 @@ class Pools:
             if k == 'add':
                 rm.add_resources(op[1], op[2])
             elif k == 'reserve':
-                ret = rm.reserve_resources(dict(op[1]))
+                passed = dict(op[1])
+                ret = rm.reserve_resources(passed)
             elif k == 'release':
                 self.res[op[1] % len(self.res)].release(None if op[2] is None else dict(op[2]))
             elif k == 'merge':
@@ -122,6 +124,18 @@ class Pools:
                     self.res.append(ret)
                     self.hold.append(dict(pos))
                     self.c['reserve_ok'] += 1
+                    # the dictionary handed to reserve_resources stays the caller's: every second one is edited
+                    # right away (the reservation must not follow), the others are watched (the library must not
+                    # change them later, e.g. when the reservation is released)
+                    if passed != op[1]:
+                        raise Violation('C09.caller-dict', f'{op}: the request dictionary was changed to {passed}')
+                    if self.c['reserve_ok'] % 2:
+                        passed['__edited_by_caller'] = 7
+                        for n in list(passed):
+                            passed[n] = 99
+                        passed.clear()
+                    else:
+                        self.watched.append((passed, dict(passed), len(self.res) - 1))
                 else:
                     if ret is not None:
                         raise Violation('C09.unfit-granted', f'{op} granted although it does not fit '
@@ -188,6 +202,10 @@ class Pools:
             if norm(r.reserved_resources) != m:
                 raise Violation('C09.holding', f'after {op}: reservation {idx} holds {r.reserved_resources}, '
                                 f'reference model {m}')
+        for obj, was, idx in self.watched:
+            if obj != was:
+                raise Violation('C09.caller-dict', f'after {op}: the dictionary {was} that was handed to reserve_resources '
+                                f'for reservation {idx} now reads {obj}')
 
 
 def run_pools(case):
